@@ -355,6 +355,10 @@ func (s *sess) byteStep(b *behaviour, si int, prevp *[]int) bool {
 			return false
 		}
 	case "setoffset":
+		if st.B == 1 {
+			// vacuity guard: the spec says this rewind lands in the unflushed tail while flushed-unsynced bytes are buffered
+			s.res.Count("setoffset:into-unflushed-tail-with-flushed-unsynced-buffered:"+b.Origin, 1)
+		}
 		opErr = s.app.SetOffset(int64(st.A))
 	case "flush":
 		opErr = s.app.Flush()
